@@ -78,7 +78,7 @@ def build_harness():
     return time.time() - t
 
 
-def run_harness(cmd, cases, tag, timeout=600):
+def run_harness(cmd, cases, tag, timeout=600, mem_kb=None):
     """Run svh on a list of cases; returns {id: lines}.  A crash/timeout of the whole batch is
     bisected so that one aborting case (stack overflow) does not hide the others."""
     os.makedirs(os.path.join(BUILD, "cases"), exist_ok=True)
@@ -89,7 +89,11 @@ def run_harness(cmd, cases, tag, timeout=600):
         os.remove(outp)
     sb = os.path.join(BUILD, "sandbox", "%s.%d" % (tag, os.getpid()))
     try:
-        rc, out = sh([SVH, cmd, inp, outp, sb], timeout=timeout)
+        if mem_kb:
+            # address-space limit for inputs known to grow without bound (an allocation failure aborts the process)
+            rc, out = sh("ulimit -v %d; exec %s %s %s %s %s" % (mem_kb, SVH, cmd, inp, outp, sb), timeout=timeout)
+        else:
+            rc, out = sh([SVH, cmd, inp, outp, sb], timeout=timeout)
     except subprocess.TimeoutExpired:
         rc, out = -9, "timeout"
     shutil.rmtree(sb, ignore_errors=True)
@@ -98,8 +102,8 @@ def run_harness(cmd, cases, tag, timeout=600):
     if len(cases) == 1:
         return {cases[0].id: ["abort rc=%s" % rc]}
     mid = len(cases) // 2
-    r = run_harness(cmd, cases[:mid], tag + "a", timeout)
-    r.update(run_harness(cmd, cases[mid:], tag + "b", timeout))
+    r = run_harness(cmd, cases[:mid], tag + "a", timeout, mem_kb)
+    r.update(run_harness(cmd, cases[mid:], tag + "b", timeout, mem_kb))
     return r
 
 
